@@ -102,7 +102,12 @@ func lineWriterRule(c *an.Ctx, rule string) {
 		c.Und(rule, "output.(lineWriter).Write", token.NoPos, "not found")
 		return
 	}
-	isDst := func(v ssa.Value) bool { return an.FieldProv(v) == "lineWriter.dst" }
+	// the destination: the lineWriter's field of type io.Writer (whatever its name)
+	isDst := func(v ssa.Value) bool {
+		fp := an.FieldProv(v)
+		return strings.HasPrefix(fp, "lineWriter.") && types.TypeString(v.Type(), nil) == "io.Writer"
+	}
+	var nameArgs []ssa.Value
 	ex := &an.Explorer{P: p, NoReturn: noReturn}
 	ex.Effect = func(in ssa.Instruction, st *an.State) string {
 		call, ok := in.(*ssa.Call)
@@ -117,6 +122,7 @@ func lineWriterRule(c *an.Ctx, rule string) {
 			var args []string
 			for _, a := range call.Call.Args[1:] {
 				args = append(args, an.FieldProv(a))
+				nameArgs = append(nameArgs, a)
 			}
 			return name + "(dst," + strings.Join(args, ",") + ")"
 		}
@@ -138,7 +144,13 @@ func lineWriterRule(c *an.Ctx, rule string) {
 	// content: name, ": ", payload, terminator
 	okContent := false
 	for _, s := range seen {
-		if strings.Contains(s, "lineWriter.t") || strings.Contains(s, "Task.Name") {
+		carriesName := strings.Contains(s, "lineWriter.t") || strings.Contains(s, "Task.Name")
+		for _, a := range nameArgs {
+			if reachesField(p, a, "Task.Name", 5) {
+				carriesName = true
+			}
+		}
+		if carriesName {
 			if strings.Contains(s, `%s: %s\r\n`) || strings.Contains(s, `%s: %s\n`) {
 				okContent = true
 			}
@@ -261,11 +273,39 @@ func prefixedForwarding(c *an.Ctx, rule string) {
 		return
 	}
 	loop := an.InnermostLoop(an.Loops(w), site.Block())
+	// lf is the function holding the scanning loop: Write itself, or a helper of the package that Write
+	// hands its whole argument and its line buffer to (one call site, in Write)
+	lf, lparam := w, param
+	var lfCall *ssa.Call
+	if loop == nil && scan.Parent() != w {
+		g := scan.Parent()
+		if l2 := an.InnermostLoop(an.Loops(g), scan.Block()); l2 != nil {
+			if sites := p.CallSitesOf(g); len(sites) == 1 && sites[0].Parent() == w {
+				if call, ok := sites[0].(*ssa.Call); ok && !call.Call.IsInvoke() {
+					for i, a := range call.Call.Args {
+						if i < len(g.Params) && an.SameValue(a, param) {
+							lf, lparam, lfCall, loop = g, g.Params[i], call, l2
+						}
+					}
+				}
+			}
+		}
+	}
 	if loop == nil {
 		c.Und(rule, an.Short(w)+":loop", scan.Pos(), "ScanLines is not called in a loop")
 		return
 	}
-	isBuf := func(v ssa.Value) bool { return an.FieldProv(v) == "prefixedOutputDecorator.w" }
+	isBuf := func(v ssa.Value) bool {
+		if an.FieldProv(v) == "prefixedOutputDecorator.w" {
+			return true
+		}
+		if lfCall != nil {
+			if i := paramIndexOf(lf, v); i >= 0 && i < len(lfCall.Call.Args) {
+				return an.FieldProv(lfCall.Call.Args[i]) == "prefixedOutputDecorator.w"
+			}
+		}
+		return false
+	}
 	adv := extractOf(scan, 0)
 	line := extractOf(scan, 1)
 	isOneOf := func(v ssa.Value, set []ssa.Value) bool {
@@ -297,13 +337,13 @@ func prefixedForwarding(c *an.Ctx, rule string) {
 		}
 		return true
 	}
-	if phi, ok := scan.Call.Args[0].(*ssa.Phi); ok && scan.Parent() == w && phi.Block() == loop.Header {
+	if phi, ok := scan.Call.Args[0].(*ssa.Phi); ok && scan.Parent() == lf && phi.Block() == loop.Header {
 		rem = phi
 	} else if u, ok := scan.Call.Args[0].(*ssa.UnOp); ok && u.Op == token.MUL {
 		if fa, ok := u.X.(*ssa.FieldAddr); ok {
 			srcs := p.DeepSources(fa.X, 3, true)
 			if len(srcs) == 1 {
-				if a, ok := srcs[0].(*ssa.Alloc); ok && a.Parent() == w {
+				if a, ok := srcs[0].(*ssa.Alloc); ok && a.Parent() == lf {
 					remField, remObj = an.TypeField(fa), a
 				}
 			}
@@ -314,7 +354,7 @@ func prefixedForwarding(c *an.Ctx, rule string) {
 		for i, pred := range loop.Header.Preds {
 			e := rem.Edges[i]
 			if !loop.Blocks[pred] {
-				c.Check(an.SameValue(e, param), rule, an.Short(w)+":remainder-initial", rem.Pos(), "scanning starts with the whole argument", "scanning does not start with the whole argument")
+				c.Check(an.SameValue(e, lparam), rule, an.Short(w)+":remainder-initial", rem.Pos(), "scanning starts with the whole argument", "scanning does not start with the whole argument")
 				continue
 			}
 			sl, ok := e.(*ssa.Slice)
@@ -335,7 +375,7 @@ func prefixedForwarding(c *an.Ctx, rule string) {
 				if !ok || an.TypeField(fa) != remField {
 					return
 				}
-				if f == w && !loop.Blocks[st.Block()] && an.Dominates(st, loop.Header.Instrs[0]) && an.SameValue(st.Val, param) {
+				if f == lf && !loop.Blocks[st.Block()] && an.Dominates(st, loop.Header.Instrs[0]) && an.SameValue(st.Val, lparam) {
 					nInit++
 					return
 				}
@@ -355,7 +395,9 @@ func prefixedForwarding(c *an.Ctx, rule string) {
 	}
 	// per iteration: advance ≠ 0, no error → write(line) before going round
 	// (helpers of pkg/output such as an extracted emitLine are inlined; the line is followed into them by identity)
-	inlinable := func(f *ssa.Function) bool { return f != nil && f.Blocks != nil && an.Outer(f).Pkg == w.Pkg && f != w }
+	inlinable := func(f *ssa.Function) bool {
+		return f != nil && f.Blocks != nil && an.Outer(f).Pkg == w.Pkg && f != w && f != lf
+	}
 	ex := &an.Explorer{P: p, NoReturn: noReturn, MaxDepth: 2, Inline: inlinable}
 	loop.Bound(ex)
 	ex.Atom = func(v ssa.Value) (an.AVal, bool) {
@@ -393,7 +435,7 @@ func prefixedForwarding(c *an.Ctx, rule string) {
 		if !ok {
 			return ""
 		}
-		if an.ShortCallee(&call.Call) == "(*bufio.Writer).Write" && isBuf(call.Call.Args[0]) {
+		if an.ShortCallee(&call.Call) == "(*bufio.Writer).Write" && (isBuf(call.Call.Args[0]) || isBuf(st.Root(call.Call.Args[0]))) {
 			if isOneOf(call.Call.Args[1], line) || isOneOf(st.Root(call.Call.Args[1]), line) {
 				return "write(line)"
 			}
@@ -407,10 +449,10 @@ func prefixedForwarding(c *an.Ctx, rule string) {
 		return ""
 	}
 	var outs []an.Outcome
-	if scan.Parent() == w {
-		outs = ex.RunFrom(w, scan, nil)
+	if scan.Parent() == lf {
+		outs = ex.RunFrom(lf, scan, nil)
 	} else {
-		outs = ex.Run(w, loop.BodyEntry(), loop.Header, nil)
+		outs = ex.Run(lf, loop.BodyEntry(), loop.Header, nil)
 	}
 	good := len(outs) > 0
 	for _, o := range outs {
@@ -429,7 +471,51 @@ func prefixedForwarding(c *an.Ctx, rule string) {
 	c.Check(good, rule, an.Short(w)+":line-forwarded", scan.Pos(), "each scanned line is written to the line buffer exactly once before the input advances", "a scanned line can be skipped (or written twice) before the input advances")
 	// after the loop: the remainder is written, and the nil-error return reports len(p)
 	tailOK := false
+	if lfCall != nil {
+		// the loop's function returns what the scanner left over (every return without an error gives the
+		// loop-carried remainder), and Write writes that result to the line buffer
+		idx := -1
+		res := lf.Signature.Results()
+		for i := 0; i < res.Len(); i++ {
+			if types.Identical(res.At(i).Type(), param.Type()) {
+				idx = i
+			}
+		}
+		retOK := idx >= 0
+		for _, ret := range an.Returns(lf) {
+			if idx < 0 {
+				break
+			}
+			errIdx := res.Len() - 1
+			if an.IsErrorType(res.At(errIdx).Type()) && !an.IsNilConst(an.RetVal(ret, errIdx)) {
+				continue
+			}
+			for _, src := range an.ResolveAll(an.RetVal(ret, idx)) {
+				if !((rem != nil && src == ssa.Value(rem)) || src == ssa.Value(lparam) || (remObj != nil && isRemLoad(src))) {
+					retOK = false
+				}
+			}
+		}
+		if retOK {
+			for _, ci := range an.CallsIn(w, "(*bufio.Writer).Write") {
+				if !isBuf(ci.Common().Args[0]) || !an.Dominates(lfCall, ci.(ssa.Instruction)) {
+					continue
+				}
+				for _, src := range an.Sources(ci.Common().Args[1]) {
+					if e, ok := src.(*ssa.Extract); ok && e.Tuple == ssa.Value(lfCall) && e.Index == idx {
+						tailOK = true
+					}
+					if src == ssa.Value(lfCall) && res.Len() == 1 {
+						tailOK = true
+					}
+				}
+			}
+		}
+	}
 	for _, ci := range an.CallsIn(w, "(*bufio.Writer).Write") {
+		if lfCall != nil {
+			break
+		}
 		if !loop.Blocks[ci.Block()] && isBuf(ci.Common().Args[0]) {
 			for _, src := range an.Sources(ci.Common().Args[1]) {
 				if (rem != nil && src == ssa.Value(rem)) || src == ssa.Value(param) {
@@ -457,15 +543,31 @@ func prefixedForwarding(c *an.Ctx, rule string) {
 		c.Check(okN, rule, an.Short(w)+":count", ret.Pos(), "a successful Write reports len(p)", "a successful Write does not report len(p): io.MultiWriter treats a short count as an error and the task log loses the chunk")
 	}
 	// WriteFooter flushes
-	flushes := an.CallsIn(wf, "(*bufio.Writer).Flush")
-	okFlush := false
-	if len(flushes) > 0 && isBuf(flushes[0].Common().Args[0]) {
-		first := wf.Blocks[0].Instrs[0]
-		okFlush, _ = an.OnAllPathsToExit(first, func(in ssa.Instruction) bool { return in == flushes[0].(ssa.Instruction) }, nil)
-		if first == flushes[0].(ssa.Instruction) {
-			okFlush = true
+	// (a helper of the package that flushes the decorator's buffer on every path counts as the flush)
+	var flushesAlways func(fn *ssa.Function, depth int) bool
+	flushesAlways = func(fn *ssa.Function, depth int) bool {
+		if fn == nil || len(fn.Blocks) == 0 {
+			return false
 		}
+		isFlush := func(in ssa.Instruction) bool {
+			call, ok := in.(*ssa.Call)
+			if !ok {
+				return false
+			}
+			if an.ShortCallee(&call.Call) == "(*bufio.Writer).Flush" {
+				return an.FieldProv(call.Call.Args[0]) == "prefixedOutputDecorator.w"
+			}
+			callee := call.Call.StaticCallee()
+			return depth > 0 && callee != nil && callee.Pkg == wf.Pkg && flushesAlways(callee, depth-1)
+		}
+		first := fn.Blocks[0].Instrs[0]
+		if isFlush(first) {
+			return true
+		}
+		ok, _ := an.OnAllPathsToExit(first, isFlush, nil)
+		return ok
 	}
+	okFlush := flushesAlways(wf, 2)
 	c.Check(okFlush, rule, an.Short(wf)+":flush", wf.Pos(), "the footer flushes the line buffer on every path", "WriteFooter does not flush the line buffer: an unterminated tail is lost")
 }
 
@@ -490,6 +592,16 @@ func finishWithoutStart(c *an.Ctx, rule string) {
 				if bo, ok := in.(*ssa.BinOp); ok && bo.Op == token.EQL {
 					if s, ok := an.ConstString(bo.Y); ok {
 						got[s] = true
+					}
+				}
+				// or a lookup in a constant registry of the package: its keys are the cases
+				if lk, ok := in.(*ssa.Lookup); ok {
+					if g := globalOfLookup(lk); g != nil {
+						if reg, ok := constRegistry(p, g); ok {
+							for k := range reg {
+								got[k] = true
+							}
+						}
 					}
 				}
 			})
@@ -1012,4 +1124,67 @@ func lockOrder(c *an.Ctx, rule string) {
 	if n == 0 {
 		c.OK(rule, "pkg/output:critical-sections", token.NoPos, "no function holds a mutex that a spinner callback takes")
 	}
+}
+
+// reachesField reports whether a load of the type-qualified field flows into
+// v: through conversions, the elements of argument lists, the arguments of
+// library calls and the results of module functions (interface calls are
+// resolved to the module's implementations).
+func reachesField(p *an.Prog, v ssa.Value, field string, depth int) bool {
+	if v == nil || depth == 0 {
+		return false
+	}
+	for _, src := range an.Sources(v) {
+		switch x := src.(type) {
+		case *ssa.UnOp:
+			if fa, ok := x.X.(*ssa.FieldAddr); ok && x.Op == token.MUL && an.TypeField(fa) == field {
+				return true
+			}
+		case *ssa.Field:
+			if an.FieldProv(x) == field {
+				return true
+			}
+		case *ssa.MakeInterface:
+			if reachesField(p, x.X, field, depth) {
+				return true
+			}
+		case *ssa.ChangeType:
+			if reachesField(p, x.X, field, depth) {
+				return true
+			}
+		case *ssa.Convert:
+			if reachesField(p, x.X, field, depth) {
+				return true
+			}
+		case *ssa.Slice:
+			for _, e := range an.VariadicElems(x) {
+				if reachesField(p, e, field, depth) {
+					return true
+				}
+			}
+		case *ssa.Call:
+			inModule := false
+			for _, callee := range p.Callees(&x.Call) {
+				if callee.Blocks == nil || !an.InModule(callee) {
+					continue
+				}
+				inModule = true
+				for _, ret := range an.Returns(callee) {
+					for i := range ret.Results {
+						if reachesField(p, an.RetVal(ret, i), field, depth-1) {
+							return true
+						}
+					}
+				}
+			}
+			if !inModule {
+				for _, a := range x.Call.Args {
+					if reachesField(p, a, field, depth-1) {
+						return true
+					}
+				}
+			}
+		}
+	}
+	return false
 }
